@@ -140,17 +140,23 @@ macro_rules! impl_numeric_cast {
 
         #[cfg(feature="time")]
         impl<U: TimeUnitTrait> Cast<DateTime<U>> for $T {
-            #[inline] fn cast(self) -> DateTime<U> { Cast::<i64>::cast(self).into() }
+            #[inline] fn cast(self) -> DateTime<U> {
+                if self.is_none() { DateTime::nat() } else { Cast::<i64>::cast(self).into() }
+            }
         }
 
         #[cfg(feature="time")]
         impl Cast<TimeDelta> for $T {
-            #[inline] fn cast(self) -> TimeDelta { Cast::<i64>::cast(self).into() }
+            #[inline] fn cast(self) -> TimeDelta {
+                if self.is_none() { TimeDelta::nat() } else { Cast::<i64>::cast(self).into() }
+            }
         }
 
         #[cfg(feature="time")]
         impl Cast<Time> for $T {
-            #[inline] fn cast(self) -> Time { Cast::<i64>::cast(self).into() }
+            #[inline] fn cast(self) -> Time {
+                if self.is_none() { Time::nat() } else { Cast::<i64>::cast(self).into() }
+            }
         }
 
 
@@ -261,6 +267,46 @@ impl Cast<Time> for Option<bool> {
 
 #[cfg(feature = "time")]
 macro_rules! impl_time_cast {
+    // float targets can represent a null: NaT becomes NaN
+    (@float $($T: ty),*) => {
+        $(
+            impl<U: TimeUnitTrait> Cast<$T> for DateTime<U> {
+                #[inline] fn cast(self) -> $T {
+                    if self.is_none() { <$T>::NAN } else { Cast::<i64>::cast(self).cast() }
+                }
+            }
+
+            impl<U: TimeUnitTrait> Cast<Option<$T>> for DateTime<U> {
+                #[inline] fn cast(self) -> Option<$T> {
+                    if self.is_none() { None } else { Some(self.cast()) }
+                }
+            }
+
+            impl Cast<$T> for TimeDelta {
+                #[inline] fn cast(self) -> $T {
+                    if self.is_none() { <$T>::NAN } else { Cast::<i64>::cast(self).cast() }
+                }
+            }
+
+            impl Cast<Option<$T>> for TimeDelta {
+                #[inline] fn cast(self) -> Option<$T> {
+                    if self.is_none() { None } else { Some(self.cast()) }
+                }
+            }
+
+            impl Cast<$T> for Time {
+                #[inline] fn cast(self) -> $T {
+                    if self.is_none() { <$T>::NAN } else { Cast::<i64>::cast(self).cast() }
+                }
+            }
+
+            impl Cast<Option<$T>> for Time {
+                #[inline] fn cast(self) -> Option<$T> {
+                    if self.is_none() { None } else { Some(self.cast()) }
+                }
+            }
+        )*
+    };
     ($($T: ty),*) => {
         $(
             impl<U: TimeUnitTrait> Cast<$T> for DateTime<U> {
@@ -329,6 +375,9 @@ impl<U: TimeUnitTrait> Cast<Option<i64>> for DateTime<U> {
 impl Cast<i64> for TimeDelta {
     #[inline]
     fn cast(self) -> i64 {
+        if self.is_nat() {
+            return i64::MIN;
+        }
         let months = self.months;
         if months != 0 {
             panic!("not support cast TimeDelta to i64 when months is not zero")
@@ -342,6 +391,9 @@ impl Cast<i64> for TimeDelta {
 impl Cast<Option<i64>> for TimeDelta {
     #[inline]
     fn cast(self) -> Option<i64> {
+        if self.is_nat() {
+            return None;
+        }
         let months = self.months;
         if months != 0 {
             panic!("not support cast TimeDelta to i64 when months is not zero")
@@ -379,7 +431,9 @@ impl_numeric_cast!(isize => { u8, f32, f64, i32, i64, u64, usize });
 // impl_numeric_cast!(nocommon bool => {u8, i32, i64, u64, usize, isize});
 
 #[cfg(feature = "time")]
-impl_time_cast!(u8, u64, f32, f64, i32, usize, isize, bool);
+impl_time_cast!(u8, u64, i32, usize, isize, bool);
+#[cfg(feature = "time")]
+impl_time_cast!(@float f32, f64);
 
 macro_rules! impl_cast_from_string {
     ($($T: ty),*) => {
